@@ -8,6 +8,10 @@ SYS = vlib.tu_harness(['hmain.c', 'h_syshist.c', 'wire_net.c', 'wire_srv.c', 'wi
                        'compress2', 'uncompress', 'login_calculate'])
 SYS['repo'] = vlib.COMMON_SRCS + ['user.c', 'fw_query.c', 'util.c']
 
+# the same harness with the REAL zlib (no compress2/uncompress replacement): used for the integrity oracle
+SYS_REAL = dict(SYS)
+SYS_REAL['wraps'] = [w for w in SYS['wraps'] if w not in ('compress2', 'uncompress')]
+
 QTYPES = [10, 65399, 16, 33, 15, 5, 1]
 CLIENT_TUN_IP = bytes([10, 0, 0, 2])
 
@@ -117,3 +121,94 @@ def gen_histories(seed, n, nevents, tag='sys', fault=0.25, clean_suffix=0):
         for k, v in g.stats.items():
             stats[k] = stats.get(k, 0) + v
     return out, gens, stats
+
+
+class CleanGen(SysGen):
+    """fault prefix (optional) followed by a clean path: every in-flight datagram is delivered
+    promptly and in order, timers fire only when nothing is in flight"""
+
+    def drain(self, rounds=10):
+        for _ in range(rounds):
+            self.events.append('C2S 0 0 0 0')
+            self.events.append('S2C 0 0')
+            self.events.append('S2C 0 0')
+
+    def settle(self):
+        # let the programs find each other again: pings, sweeps, a little time
+        for _ in range(10):
+            self.events.append('TICK 1')
+            self.events.append('CT')
+            self.drain(4)
+            self.events.append('SS')
+            self.drain(2)
+
+    def clean_phase(self, npackets):
+        r = self.rng
+        offered = []
+        for i in range(npackets):
+            if r.randrange(2):
+                p = self.pkt(bytes([8, 8, 8, 8]))
+                self.events.append('CU ' + p.hex())
+                offered.append(('up', len(self.events) - 1, p))
+            else:
+                p = self.pkt(CLIENT_TUN_IP)
+                self.events.append('SU ' + p.hex())
+                offered.append(('down', len(self.events) - 1, p))
+            # deliver everything; client timers fire when idle
+            for _ in range(r.choice([3, 6, 12])):
+                self.drain(3)
+                self.events.append('SS')
+                self.drain(1)
+                if r.randrange(2):
+                    self.events.append('TICK 1')
+                    self.events.append('CT')
+                    self.drain(3)
+        for _ in range(8):
+            self.events.append('TICK 1')
+            self.events.append('CT')
+            self.drain(6)
+            self.events.append('SS')
+            self.drain(3)
+        return offered
+
+    def build_clean(self, fault_events, npackets):
+        if fault_events:
+            SysGen.build(self, fault_events)
+            # whatever is still in flight is lost when the path comes back
+            for _ in range(12):
+                self.events.append('C2S 0 2 0 0')
+                self.events.append('S2C 0 2')
+            self.settle()
+        self.clean_start = len(self.events)
+        self.offered = self.clean_phase(npackets)
+        return self.head() + ' ; ' + ' ; '.join(self.events)
+
+
+def gen_clean(seed, n, fault_events, npackets, tag='sysclean'):
+    rng = vlib.rng_for(seed, tag)
+    out = []
+    gens = []
+    for _ in range(n):
+        g = CleanGen(rng, fault=0.35)
+        out.append(g.build_clean(fault_events if rng.randrange(3) else 0, npackets))
+        gens.append(g)
+    return out, gens
+
+
+def parse_event_output(o):
+    """'S<n> hex.. C<m> hex.. Q<a>/<b> | client digest | server digest' -> dict"""
+    head, cli, srv = o.split(' | ', 2) if o.count(' | ') >= 2 else (o, '', '')
+    t = head.split(' ')
+    i = 0
+    res = dict(srv_tun=[], cli_tun=[], q=(0, 0), cli=cli, srv=srv)
+    if not t or not t[0].startswith('S'):
+        return res
+    ns = int(t[0][1:])
+    res['srv_tun'] = t[1:1 + ns]
+    i = 1 + ns
+    nc = int(t[i][1:])
+    res['cli_tun'] = t[i + 1:i + 1 + nc]
+    i = i + 1 + nc
+    a, b = t[i][1:].split('/')
+    res['q'] = (int(a), int(b))
+    return res
